@@ -447,7 +447,9 @@ class Analyzer:
         if m:
             self.expr(m.group(1), False)
             return
-        m = re.fullmatch(r"std::lock_guard\s+(\w+)\s*\((.*)\)", t, re.S)
+        # a scope-long guard: std::lock_guard, or std::unique_lock / std::scoped_lock over ONE mutex that is never unlocked
+        # or re-locked by hand (any `.unlock()` / `.lock()` / defer / try argument still fails below)
+        m = re.fullmatch(r"std::(?:lock_guard|unique_lock|scoped_lock)(?:<[^>]*>)?\s+(\w+)\s*\(([^,()]*)\)", t, re.S)
         if m:
             self.locals[-1][m.group(1)] = None
             mu = self.mutex_of(m.group(2))
